@@ -423,20 +423,24 @@ def ref_angle(u, v):
 def neighbour_angles(ctx):
     rng = ctx.rng
     n = rng.integers(2, 7, 3)
+    if rng.random() < 0.25:
+        n[int(rng.integers(0, 3))] = 1  # a film one cell thick: no neighbours along that axis
     scale = 10.0 ** rng.uniform(-9, 3)
     cell = scale * rng.uniform(0.4, 2.5, 3)
     pmin = rng.uniform(-3, 3, 3) * cell * n
-    dims = gen.pick(rng, [None, None, ["a", "b", "c"], ["z", "x", "y"]])
+    dims = gen.pick(rng, [None, None, ["a", "b", "c"], ["z", "x", "y"], ["x", "y", "V"]])
     dnames = dims or ["x", "y", "z"]
+    aunits = gen.pick(rng, [None, None, ["nm", "nm", "nm"], ["nm", "um", "s"]])
     int_corners = rng.random() < 0.25
     if int_corners:
         # corners given as Python integers (Mesh(p1=(0, 0, 0), p2=(10, 10, 10), ...)), odd and
         # even cell edges, regions straddling the origin
         cell = rng.integers(1, 4, 3).astype(float)
         pmin = rng.integers(-6, 4, 3).astype(float)
-        region = df.Region(p1=[int(x) for x in pmin], p2=[int(x) for x in pmin + cell * n], dims=dims)
+        region = df.Region(p1=[int(x) for x in pmin], p2=[int(x) for x in pmin + cell * n], dims=dims,
+                           units=aunits)
     else:
-        region = df.Region(p1=pmin.tolist(), p2=(pmin + cell * n).tolist(), dims=dims)
+        region = df.Region(p1=pmin.tolist(), p2=(pmin + cell * n).tolist(), dims=dims, units=aunits)
     mesh = df.Mesh(region=region, n=[int(k) for k in n])
     arr = rng.normal(size=(*n, 3))
     # parallel / antiparallel / nearly parallel neighbours
@@ -482,6 +486,8 @@ def neighbour_angles(ctx):
         sl1[ax], sl2[ax] = slice(0, n[ax] - 1), slice(1, n[ax])
         ref = ref_angle(u[tuple(sl1)], u[tuple(sl2)])
         per_axis.append(ref)
+        if n[ax] == 1:
+            continue  # "a mesh one cell shorter" does not exist: the per-direction tool is not asked
         for units in ("rad", "deg"):
             okc, g = ctx.expect_ok("C19.angle.accepted", dft.neighbouring_cell_angle, f,
                                    direction=direction, units=units,
@@ -495,6 +501,10 @@ def neighbour_angles(ctx):
             tol = 1e-12 * (cell * n) + 16 * EPS * np.abs(pmin)
             ctx.check("C19.angle.mesh",
                       np.array_equal(g.mesh.n, exp_n) and g.nvdim == 1
+                      # "one cell shorter in that direction": the directions keep their names
+                      # (and units), or "that direction" means nothing on the result
+                      and list(g.mesh.region.dims) == dnames
+                      and list(g.mesh.region.units) == list(mesh.region.units)
                       and np.all(np.abs(np.asarray(g.mesh.region.pmin) - (pmin + e)) <= tol)
                       and np.all(np.abs(np.asarray(g.mesh.region.pmax) - (pmin + cell * n - e)) <= tol),
                       direction=direction, got_n=g.mesh.n, expected_n=exp_n,
